@@ -72,9 +72,11 @@ func fnClientSetName(ctx *cmdContext, args map[string]any) (output respValue, er
 		}
 	}
 
+	simBeforeLock(&ctx.cs.mu, "ctx.cs.mu")
 	ctx.cs.mu.Lock()
 	ctx.cs.name = name
 	ctx.cs.mu.Unlock()
+	simAfterUnlock(&ctx.cs.mu, "ctx.cs.mu")
 	output.data = rstrOK
 	return
 }
